@@ -1074,7 +1074,8 @@ def run(ctx: core.Run):
         "pairs incl. 0, 1, 0.5, 0.25 and their float32 neighbours, complementary and equal pairs; non-separable: sampled pairs of the "
         "17^3 lattice, random / grey / tied / primary triples on the RGB and the CMYK path, and a seed-independent CMYK matrix "
         "(7 colours x 7 colours x every ordered pair of K in {0, 1/255, 1/4, 1/2, 3/4, 254/255, 1}) on which the K carried, the partial "
-        "range clause and purity are evaluated; search additionally over the whole "
+        "range clause, the explicit bound and purity are evaluated, the boundary lattice of every CMYK channel ({0, 1/2, 1}^4 for backdrop x source: 6561 "
+        "pairs, + source K just below 1), and the purity battery over call sequences (every function x 1/3/4 channels x float32/float64 x 7 scenarios); search additionally over the whole "
         "17^3 x 17^3 lattice (thorough). distinct = distinct (function, grid, row) or (function, path, batch) keys; every case "
         "is non-trivial (each is one evaluation of a blend function on the real code)."
     )
@@ -1110,6 +1111,15 @@ NOTES = [
     "largest deviation observed on the 17^3 x 17^3 lattice is about 1.4e-6",
     "purity (arguments unmodified) is checked by snapshots in the search; normal and dissolve return the source array itself "
     "(result_memory histogram) - the property only forbids modifying the arguments, so this is information",
+    "purity over call SEQUENCES (purity_battery; search, no model): for every function object reachable through BLEND_FUNC x {1, 3, 4 "
+    "channels} x {float32, float64}: the first of two results is kept and must be unchanged after the second call - and after every other "
+    "function was called (a work plane shared between calls or between functions); a result fed back as backdrop (a layer stack), as "
+    "source, as both; the same array as both arguments; strided views; results of calls on distinct arguments must not share memory. The "
+    "reference of every comparison is the same function on fresh copies, so no oracle of the values is involved",
+    "CMYK path, explicit bound (cmyk_range_bound / cmyk_full_k_is_zero, searched by check_cmyk_bound on every CMYK case incl. the seed-"
+    "independent boundary lattice {0, 1/2, 1}^4 x {0, 1/2, 1}^4 and source K just below 1): C = M = Y = 0 exactly where the source's K = 1; "
+    ">= -K / (1 - K + 1e-9) elsewhere. The known finding C12/cmyk-wrapper/range/below-zero lives inside this interval; a value below it "
+    "has a signature of its own (C12/cmyk-wrapper/range/<fn>/nonzero-cmy-at-source-K-1, .../below-the-bound-of-cmyk_range_bound)",
     "Darker/Lighter Color: the published definition is read with Lum as the 'value' of a colour; under the literal reading of Adobe's "
     "help text (plain sum of the channels) the code differs on 17 % of the 17^3 x 17^3 lattice pairs "
     "(darker_color_sum_reading_differs_from_lum_reading_on_lattice, thorough tier)",
